@@ -94,6 +94,14 @@ func c10TimeoutDials(cs c10case) bool {
 	return (n+cs.retries+len(cs.mode))%2 == 0
 }
 
+func c10Sticky(cs c10case) bool {
+	n := cs.rr
+	for _, c := range cs.calls {
+		n += len(c)
+	}
+	return n%2 == 1
+}
+
 func c10ErrClass(err error) string {
 	if _, ok := err.(*net.OpError); ok {
 		return "dial" // a connect timeout is a failed dial, not the caller's deadline
@@ -217,6 +225,9 @@ func c10Run(cs c10case, raw bool) (obs string, fails []string) {
 	opt.Retries = cs.retries
 	opt.SerializeType = protocol.JSON
 	opt.Heartbeat = false
+	// every other script runs on a client with Option.Sticky: within ONE call of a fresh client that changes nothing -
+	// the server a failed attempt used is forgotten, the selector is asked again
+	opt.Sticky = c10Sticky(cs)
 	fm := map[string]client.FailMode{"fast": client.Failfast, "try": client.Failtry, "over": client.Failover}[cs.mode]
 	xc := client.NewXClient("Svc", fm, client.SelectByUser, d, opt)
 	defer xc.Close()
@@ -281,6 +292,23 @@ func c10Run(cs c10case, raw bool) (obs string, fails []string) {
 		if !strings.HasSuffix(a, ":lost") {
 			fails = append(fails, fmt.Sprintf("attempt-after-final|attempt %d (%s) should have ended the call, yet %d more followed", i, a, len(att)-1-i))
 			break
+		}
+	}
+	// under round-robin selection fail-over goes to a different server whenever more than one is available (scripts in
+	// which no dial is refused: every selection then shows up as a delivered request)
+	if cs.mode == "over" && len(cs.dials) >= 2 {
+		allDial := true
+		for _, d := range cs.dials {
+			if strings.Contains(d, "0") {
+				allDial = false
+			}
+		}
+		for i := 1; allDial && i < len(att); i++ {
+			a, b := strings.SplitN(att[i-1], ":", 2)[0], strings.SplitN(att[i], ":", 2)[0]
+			if a == b {
+				fails = append(fails, fmt.Sprintf("failover-same-server|after the attempt on %s failed, fail-over sent the request to %s again although %d servers are available (%v)", a, b, len(cs.dials), att))
+				break
+			}
 		}
 	}
 	// fail-try re-sends and fail-over asks the selector again: a call that ends with a connection-level failure (a
